@@ -15,6 +15,10 @@ def main(argv):
     replay = argv[6] if len(argv) > 6 else None
     seed, shard, nshards = int(seed), int(shard), int(nshards)
     faulthandler.enable()
+    hard = float(os.environ.get("VF_SHARD_HARD_S", "0") or 0)
+    if hard > 30:
+        # a hang diagnostic: the stack of every thread goes to the shard log shortly before the runner's watchdog fires
+        faulthandler.dump_traceback_later(hard - 15, exit=False)
     budget = float(os.environ.get("VF_SHARD_BUDGET_S", "0") or 0)
     deadline = time.time() + budget if budget else None
 
